@@ -49,7 +49,7 @@ def _case(draw, tier):
                                  "deleteobject", "storemetadata", "retrievemetadata", "deletemetadata", "getchecksum"]))
     c = {"cfg": cfg, "contents": [{"hex": "68656c6c6f20776f726c640d0a" * 3}, {"hex": ("c3a9" + "61" * 30) * 50}],
          "docs": [{"hex": "3c6d2f3e0d0a3c2f6d3e"}, {"hex": ("3c78" + "c3a9" + "2f3e") * 300}],
-         "ops": draw(st.one_of(ops.history(op, 0, 5), ops.history(op, 0, 5), st.just([]))), "verb": verb, "pid": draw(st.sampled_from(PIDS + ["unknown"])),
+         "ops": draw(st.one_of(ops.history(op, 0, 5), st.builds(list))), "verb": verb, "pid": draw(st.sampled_from(PIDS + ["unknown"])),
          "c": draw(st.integers(0, 1)), "creation_died": draw(st.sampled_from([0] * 8 + [1, 2, 3])),
          # how the -path value is spelled: the same string goes to the API ("options reach the API with the types it requires",
          # unedited): a trailing separator or "/." behind a regular file, no such file, a directory, "./" segments inside
